@@ -119,3 +119,28 @@ Definition subst_layout (m : mode) (fv : option ft_subst) (t : layout_table) : o
 (* well-formed byte strings / scopes: what the totality lemmas need (a table is a byte string shorter than 2^32,
    the OpenType table length is a u32) *)
 Definition table_ok (d : list Z) : Prop := bytes_ok d = true /\ len d < 4294967296.
+
+(* ------------------------------------------------------------------ demo table (used by the Examples of Props/C04.v)
+   GSUB 1.1: header with featureVariationsOffset 14, then the FeatureVariations table:
+     record 0: wght in [0.75, 1.0] (12288..16384), NULL substitution
+     record 1: wght in [0.5, 1.0]  (8192..16384),  feature 0 ('liga') -> lookup 1
+   liga -> lookup 0 (glyph 5 -> 6) in the feature list; lookup 1 maps 5 -> 15. *)
+Definition fv_demo_bytes : list Z :=
+  [0;1; 0;1; 0;0; 0;0; 0;0; 0;0;0;14;
+   0;1; 0;0; 0;0;0;2;   0;0;0;24; 0;0;0;0;   0;0;0;38; 0;0;0;52;
+   0;1; 0;0;0;6;  0;1; 0;0; 48;0; 64;0;
+   0;1; 0;0;0;6;  0;1; 0;0; 32;0; 64;0;
+   0;1; 0;0; 0;1;  0;0; 0;0;0;12;   0;0; 0;1; 0;1].
+
+Definition fv_demo_layout : layout_table :=
+  mkLayout (Some [(TAG_DFLT, mkScript (Some (mkLangSys [0])) [])])
+           (Some [(1818847073, [0])])
+           (Some [mkLookup 0 None (LSingle [SingleF1 (CovF1 [5]) 1]);
+                  mkLookup 0 None (LSingle [SingleF1 (CovF1 [5]) 10])]).
+
+Definition fv_demo_run (tu : option tuple) : outcome (list Z) :=
+  fvt <- layout_read_fv Debug fv_demo_bytes ;;
+  gs <- gsub_apply_custom_v Debug fv_demo_layout fvt None TAG_DFLT None [(1818847073, None)] tu 100
+          [mkGlyph 5 [97] 0 (Some 97) false false false 0] ;;
+  Ok (ids gs).
+
